@@ -113,6 +113,7 @@ void __cxa_throw(void *obj, void *tinfo, void *dtor)
 {
   VP_ASSERT(!__vp_exc.pending, "throw while another exception is propagating (std::terminate)");
   __vp_exc.pending = 1;
+  __vp_exc.uncaught++;
   __vp_exc.object = obj;
   __vp_exc.tinfo = tinfo;
   __vp_exc.dtor = dtor;
@@ -128,6 +129,7 @@ void *__cxa_begin_catch(void *obj)
   __vp_exc.caught_dtor[__vp_exc.ncaught] = __vp_exc.dtor;
   __vp_exc.ncaught++;
   __vp_exc.pending = 0;
+  if (__vp_exc.uncaught > 0) __vp_exc.uncaught--;
   return obj;
 }
 
@@ -147,6 +149,7 @@ void __cxa_rethrow(void)
 {
   VP_ASSERT(__vp_exc.ncaught > 0, "__cxa_rethrow outside catch");
   __vp_exc.pending = 1;
+  __vp_exc.uncaught++;
   __vp_exc.object = __vp_exc.caught_obj[__vp_exc.ncaught - 1];
   __vp_exc.tinfo = __vp_exc.caught_tinfo[__vp_exc.ncaught - 1];
   __vp_exc.dtor = __vp_exc.caught_dtor[__vp_exc.ncaught - 1];
@@ -312,3 +315,53 @@ void *vp_libc_memchr(void *s, uint32_t c, uint64_t n)
 /* formatted output into a buffer is not modelled: the buffer becomes the empty string */
 uint32_t vp_libc_sprintf(void *buf, void *fmt, ...) { (void)fmt; ((char *)buf)[0] = 0; return 0; }
 uint32_t vp_libc_snprintf(void *buf, uint64_t n, void *fmt, ...) { (void)fmt; if (n) ((char *)buf)[0] = 0; return 0; }
+
+/* ---------------------------------------------------------------- strtoull (C11 7.22.1.4) */
+static uint32_t vp_errno;
+void *__errno_location(void) { return &vp_errno; }
+static int vp_digit(uint8_t c)
+{
+  if (c >= '0' && c <= '9') return c - '0';
+  if (c >= 'a' && c <= 'z') return c - 'a' + 10;
+  if (c >= 'A' && c <= 'Z') return c - 'A' + 10;
+  return 99;
+}
+uint64_t vp_libc_strtoull(void *nptr, void *endptr, uint32_t base)
+{
+  const uint8_t *s = (const uint8_t *)nptr;
+  uint64_t i = 0;
+  for (unsigned g = 0; g < 24; ++g)       /* leading white space */
+    if (s[i] == ' ' || (s[i] >= 9 && s[i] <= 13)) ++i; else break;
+  int neg = 0;
+  if (s[i] == '+' || s[i] == '-') { neg = s[i] == '-'; ++i; }
+  if ((base == 16 || base == 0) && s[i] == '0' && (s[i + 1] == 'x' || s[i + 1] == 'X') && vp_digit(s[i + 2]) < 16)
+    { i += 2; base = 16; }
+  else if (base == 0)
+    base = s[i] == '0' ? 8 : 10;
+  uint64_t acc = 0; int any = 0, ovf = 0;
+  for (unsigned g = 0; g < 70; ++g)
+    {
+      int d = vp_digit(s[i]);
+      if (d >= (int)base) break;
+      any = 1;
+      if (acc > (0xffffffffffffffffULL - (uint64_t)d) / base) ovf = 1;
+      acc = acc * base + (uint64_t)d;
+      ++i;
+    }
+  if (endptr) *(const uint8_t **)endptr = any ? s + i : (const uint8_t *)nptr;
+  if (ovf) { vp_errno = 34 /* ERANGE */; return 0xffffffffffffffffULL; }
+  return neg ? (uint64_t)0 - acc : acc;
+}
+/* std::uncaught_exception(): an exception is propagating */
+_Bool _ZSt18uncaught_exceptionv(void) { return __vp_exc.uncaught > 0; }
+uint32_t _ZSt19uncaught_exceptionsv(void) { return (uint32_t)__vp_exc.uncaught; }
+uint32_t vp_libc_strcmp(void *a, void *b)
+{
+  const uint8_t *x = (const uint8_t *)a, *y = (const uint8_t *)b;
+  for (unsigned i = 0; i < 256; ++i)
+    {
+      if (x[i] != y[i]) return x[i] < y[i] ? (uint32_t)-1 : 1;
+      if (x[i] == 0) return 0;
+    }
+  return 0;
+}
